@@ -94,7 +94,9 @@ TAINTS = [
 ]
 TAINTS += [OPENC, f"[{OPENC}]", f"1.0*{OPENC}.fileno()", f"-0.25+len({OPENC}.read())", f"2.5 if {OPENC} else 0", MKDIRC, f"1.0*{MKDIRC}",
            f"0.5*{MKDIRC}", f"3*{OPENC}.fileno()", f"1e3+{OPENC}.fileno()", f".5-{OPENC}.fileno()"]
-BENIGN = ["[1,2,3]", "1.5", "'abc'", "(1,2)", "12", "abc", "-3", "[[1,2],[3]]", '"x"', "1e3", "0x10", ""]
+WEIRD = ["None", "...", "1e999", "-1e999", "[None, 'x']", "True", "False", "b'x'", "{1, 2}", "{'a': 1}", "1j", "-", "(", "''", '"""', "1_000", "0o17",
+         "[1,[2,[3]]]", "[[]]", "()", "1,2", "[1.5, None]", "nan", "inf", "1e-999", "[True, [False]]", "(None,)", "\\", "\x00", "[...]", "{}", "set()"]
+BENIGN = WEIRD + ["[1,2,3]", "1.5", "'abc'", "(1,2)", "12", "abc", "-3", "[[1,2],[3]]", '"x"', "1e3", "0x10", ""]
 
 
 def control_offline():
